@@ -8,7 +8,7 @@ import random
 
 import c06
 import fs_common as fs
-from common import hx, unhx
+from common import hx, unhx, time_limit
 
 REQUIRED = [
     "Swh.C13.filter_eq_prune",
@@ -234,7 +234,8 @@ def export_obs(d):
         if loader is None or not isinstance(m, model.Content):
             continue
         try:
-            lazy = loader()
+            with time_limit(5):  # (a loader that follows a link to a named pipe blocks in open())
+                lazy = loader()
         except Exception as e:
             problems.append(("lazy-data-raises", "%s: %s: %s" % (m.sha1_git.hex(), type(e).__name__, str(e)[:80])))
             continue
